@@ -87,11 +87,15 @@ var _ context.Context = (*vctx)(nil)
 // verif_C20_serve: Serve over a listener that returns an arbitrary sequence of
 // temporary errors, permanent errors and connections, followed by
 // Server.Close or Server.Shutdown from another goroutine.
-func verif_C20_serve() {
-	verifPreemptBound(verifBound(0, 1))
-	K := verifBound(3, 4)
+func verif_C20_serve() { verifC20serve(verifBound(3, 4), 0, verifBound(3, 4)) }
+
+// shorter scripts, but with one pre-emption at a synchronisation operation (thorough tier only)
+func verif_C20_serve_preempt_thorough() { verifC20serve(2, 1, 3) }
+
+func verifC20serve(K, preempt, forks int) {
+	verifPreemptBound(preempt)
 	n := verifChoice(K + 1)
-	verifSchedForkBound(verifBound(3, 4))
+	verifSchedForkBound(forks)
 	l := &vlistener{closed: make(chan struct{})}
 	firstPerm := -1
 	ntemp := 0
